@@ -350,8 +350,8 @@ def ambiguity_cache(repo, res):
     normal exit -- including the writers that go through a scenario slice (Scen.suppset / exptset)."""
     clears = []
     for fi in repo.all_functions():
-        if fi.module in ('deco', 'cpt_solver_bkp'):
-            continue
+        if fi.module in ('deco', 'cpt_solver_bkp') or fi.name == '__init__':
+            continue          # (a constructor's stores are initialisation: the object has no cached model yet)
         for n in walk_no_nested(fi.node):
             if isinstance(n, ast.Assign) and any(isinstance(t, ast.Attribute) and t.attr == 'update' for t in n.targets) \
                     and isinstance(n.value, ast.Constant) and n.value.value is False:
@@ -363,6 +363,9 @@ def ambiguity_cache(repo, res):
     for fi in repo.all_functions():
         if fi.module in ('deco', 'cpt_solver_bkp') or fi.name == '__init__':
             continue
+        if fi.cls is None or not (fi.cls.name == 'Ambiguity' or fi.cls.name.startswith('Scen')):
+            continue          # the fields of an ambiguity set are written by Ambiguity and by its scenario slices
+                              # (gcp.Model has an unrelated list called exp_constr)
         writes = []
         for n in walk_no_nested(fi.node):
             tgt = None
